@@ -53,18 +53,20 @@ KIND = {
     "GaussianPDF": "pdf", "GaussianDiagPDF": "pdf",
     "ConditionalGaussianPDF": "cond", "ConditionalGaussianDiagPDF": "cond",
     "ConditionalIdentityGaussianPDF": "cond", "ConditionalIdentityDiagGaussianPDF": "cond",
+    "NNControlGaussianConditional": "cond",
 }
 IDENT = ("ConditionalIdentityGaussianPDF", "ConditionalIdentityDiagGaussianPDF")
 
 
 class Slot:
-    __slots__ = ("id", "obj", "kind", "born", "by", "tainted", "role", "cmap")
+    __slots__ = ("id", "obj", "kind", "born", "by", "tainted", "role", "cmap", "u")
 
     def __init__(self, id, obj, kind, born, by):
         self.id, self.obj, self.kind, self.born, self.by = id, obj, kind, born, by
         self.tainted = False
         self.role = None
         self.cmap = None
+        self.u = None  # fixed control input of an NN-controlled conditional
 
     @property
     def cls(self):
@@ -72,6 +74,8 @@ class Slot:
 
     @property
     def R(self):
+        if self.u is not None:
+            return int(np.shape(self.u)[0])
         return int(self.obj.R)
 
     @property
@@ -240,6 +244,12 @@ def build(cls, kw, w=None, rec=None):
     L = lib()
     jnp = L["jnp"]
     args = {}
+    if cls == "NNControlGaussianConditional":
+        W = w.f(rec, ("kw", "W")) if w is not None else jnp.asarray(kw["W"])
+        c = w.f(rec, ("kw", "c")) if w is not None else jnp.asarray(kw["c"])
+        Sig = w.f(rec, ("kw", "Sigma")) if w is not None else jnp.asarray(kw["Sigma"])
+        return L["CLS"][cls](Sigma=Sig, num_cond_dim=int(kw["num_cond_dim"]), num_control_dim=int(kw["num_control_dim"]),
+                             control_func=lambda u: jnp.tanh(u @ W + c))
     for k, v in kw.items():
         if k == "num_dim":
             args[k] = int(v)
@@ -261,7 +271,15 @@ def _idx(rec, key="idx"):
 
 
 def run_root(w, rec):
-    return [w.put(rec, build(rec["cls"], rec["kw"], w, rec))]
+    s = w.put(rec, build(rec["cls"], rec["kw"], w, rec))
+    if rec["cls"] == "NNControlGaussianConditional":
+        s.u = w.f(rec, "u")
+    return [s]
+
+
+def _ukw(w, sid):
+    s = w.slots[sid]
+    return {"u": s.u} if s.u is not None and type(s.obj).__name__ == "NNControlGaussianConditional" else {}
 
 
 def run_slice(w, rec):
@@ -315,19 +333,23 @@ def run_condition_on(w, rec):
 def run_cond_x(w, rec):
     c = w.obj(rec["a"])
     x = w.f(rec, "x")
-    r = c(x) if rec.get("call") else c.condition_on_x(x)
+    ukw = _ukw(w, rec["a"])
+    if ukw:
+        r = c(x, ukw["u"]) if rec.get("call") else c.condition_on_x_u(x, ukw["u"])
+    else:
+        r = c(x) if rec.get("call") else c.condition_on_x(x)
     return [w.put(rec, r)]
 
 
 def run_set_y(w, rec):
-    return [w.put(rec, w.obj(rec["a"]).set_y(w.f(rec, "y")))]
+    return [w.put(rec, w.obj(rec["a"]).set_y(w.f(rec, "y"), **_ukw(w, rec["a"])))]
 
 
 def run_affine(w, rec):
     c, p = w.obj(rec["a"]), w.obj(rec["p"])
     fn = {"joint": c.affine_joint_transformation, "marginal": c.affine_marginal_transformation,
           "conditional": c.affine_conditional_transformation}[rec["which"]]
-    return [w.put(rec, fn(p))]
+    return [w.put(rec, fn(p, **_ukw(w, rec["a"])))]
 
 
 def run_update(w, rec):
@@ -371,16 +393,16 @@ def run_obs(w, rec):
                 w.out(rec, "attr." + n, val)
         return []
     elif name == "get_conditional_mu":
-        v = o.get_conditional_mu(w.f(rec, "x"))
+        v = o.get_conditional_mu(w.f(rec, "x"), **_ukw(w, rec["a"]))
     elif name in ("conditional_entropy", "mutual_information"):
-        v = getattr(o, name)(w.obj(rec["p"]))
+        v = getattr(o, name)(w.obj(rec["p"]), **_ukw(w, rec["a"]))
     elif name == "integrate_log_conditional":
-        v = o.integrate_log_conditional(w.obj(rec["p"]))
+        v = o.integrate_log_conditional(w.obj(rec["p"]), **_ukw(w, rec["a"]))
     elif name == "integrate_log_conditional_y":
         if rec.get("callable"):
-            v = o.integrate_log_conditional_y(w.obj(rec["p"]))(w.f(rec, "y"))
+            v = o.integrate_log_conditional_y(w.obj(rec["p"]), **_ukw(w, rec["a"]))(w.f(rec, "y"))
         else:
-            v = o.integrate_log_conditional_y(w.obj(rec["p"]), y=w.f(rec, "y"))
+            v = o.integrate_log_conditional_y(w.obj(rec["p"]), y=w.f(rec, "y"), **_ukw(w, rec["a"]))
     elif name == "sample":
         jax = lib()["jax"]
         key = jnp.asarray(np.asarray(rec["key"], dtype=np.uint32))
@@ -428,7 +450,7 @@ def operands(rec):
 def describe(s):
     o = s.obj
     if s.kind == "cond":
-        shp = f"R{int(o.R)}Dy{int(o.Dy)}Dx{int(o.Dx)}"
+        shp = f"R{s.R}Dy{int(o.Dy)}Dx{int(o.Dx)}"
     else:
         shp = f"R{int(o.R)}D{int(o.D)}"
     return f"{s.cls}:{shp}:{ref.cache_mask(o)}"
@@ -446,7 +468,7 @@ def ctx_of(w, rec, before=None):
             c["cls_" + k] = s.cls
             c["kind_" + k] = s.kind
             try:
-                c["R_" + k] = int(o.R)
+                c["R_" + k] = s.R
                 if s.kind == "cond":
                     c["Dx_" + k], c["Dy_" + k] = int(o.Dx), int(o.Dy)
                 else:
@@ -664,7 +686,7 @@ def _reach(w, rec, before):
             w.reach["slice_warm" if m.startswith("S") else "slice_cold"] += 1
     elif rec["op"] == "affine":
         c, p = w.slots[rec["a"]], w.slots[rec["p"]]
-        w.reach[f"affine.{rec['which']}.{'ident' if c.cls in IDENT else 'gen'}.{'Dx>Dy' if c.obj.Dx > c.obj.Dy else 'Dx<=Dy'}.Rc{min(c.R,2)}Rp{min(p.R,2)}"] += 1
+        w.reach[f"affine.{rec['which']}.{'ident' if c.cls in IDENT else ('nn' if c.u is not None else 'gen')}.{'Dx>Dy' if c.obj.Dx > c.obj.Dy else 'Dx<=Dy'}.Rc{min(c.R,2)}Rp{min(p.R,2)}"] += 1
     f = w.last_fault.pop(rec.get("a"), None)
     if f:
         w.interleavings.add((f, rec["op"], before.get(rec.get("a"), "")))
